@@ -17,7 +17,10 @@ func InitGenesis(ctx sdk.Context, k keeper.Keeper, data types.GenesisState) {
 			k.SetRewardRule(ctx, pool.Id, r)
 		}
 		k.SetPool(ctx, pool)
-		if !k.Expired(ctx, pool) {
+		// the queue is not part of the genesis: every pool whose end height has not
+		// been processed by the end blocker yet goes back into it (Expired cannot be
+		// asked here, at the end height it reads the very queue that is being rebuilt)
+		if pool.EndHeight >= ctx.BlockHeight() {
 			k.EnqueueActivePool(ctx, pool.Id, pool.EndHeight)
 		}
 	}
